@@ -321,6 +321,37 @@ def fault_jobs(tier):
         js.append(fault_job('multipitch.metrics[estimate %s]' % kind, b_mp(kind), lambda inp: MP.metrics(inp['t'], inp['good'], inp['t'].copy(), inp['fr']),
                             ['multipitch.validate', 'util.validate_frequencies']))
 
+    # --- separation.validate: silent / mis-shaped sources (symbolic non-zero samples, concrete shapes)
+    import mir_eval.separation as SEP
+
+    def b_sep(kind):
+        def b(ctx):
+            vals = [ctx.real('x%d' % i) for i in range(4)]
+            for v in vals:
+                ctx.assume(S._lor(v > 0, v < 0))
+            good = S.array([[vals[0], vals[1]], [vals[2], vals[3]]])
+            if kind == 'silent reference source':
+                return dict(ref=S.array([[vals[0], vals[1]], [0.0, 0.0]]), est=good)
+            if kind == 'silent estimated source':
+                return dict(ref=good, est=S.array([[0.0, 0.0], [vals[2], vals[3]]]))
+            if kind == 'shape mismatch':
+                return dict(ref=good, est=S.array([[vals[0], vals[1], vals[2]], [vals[2], vals[3], vals[0]]]))
+            return dict(ref=good.reshape(1, 1, 2, 2), est=good.reshape(1, 1, 2, 2))
+        return b
+    for kind in ('silent reference source', 'silent estimated source', 'shape mismatch', 'four-dimensional sources'):
+        js.append(fault_job('separation.validate[%s]' % kind, b_sep(kind), lambda inp: SEP.validate(inp['ref'], inp['est']), ['separation.validate', 'separation._any_source_silent']))
+
+    # --- malformed chord labels reach InvalidChordException through the comparison functions and evaluate()
+    def b_lab(ctx):
+        T_ = ctx.real('T')
+        ctx.assume(T_ > 0)
+        return dict(iv=S.array([[0.0, T_]]))
+    for bad in ('H:maj', 'C:major', 'C::maj', 'C:maj/', '', 'C:maj(', 'N:maj'):
+        js.append(fault_job('chord.evaluate[label %r]' % bad, b_lab, lambda inp, bad=bad: CHORD.evaluate(inp['iv'], ['C:maj'], inp['iv'].copy(), [bad]),
+                            ['chord.evaluate', 'chord.validate_chord_label'], exc=CHORD.InvalidChordException))
+        js.append(fault_job('chord.thirds[label %r]' % bad, b_lab, lambda inp, bad=bad: CHORD.thirds([bad], ['C:maj']),
+                            ['chord.thirds', 'chord.validate'], exc=CHORD.InvalidChordException))
+
     # --- pattern
     def b_pat(kind):
         def b(ctx):
